@@ -126,7 +126,7 @@ class ExprMixin:
         return Val(py=("modattr", f"{mi.relpath}:{name}"))
 
     SPEC_FUNCS = {"old", "implies", "iff", "forall", "exists", "result", "is_exc", "typeof_is", "str_eq", "fresh_ref",
-                  "unchanged", "contains"}
+                  "unchanged", "contains", "same_except"}
 
     # ------------------------------------------------------------ attribute access
     def ev_Attribute(self, node, st):
